@@ -374,7 +374,16 @@ def make_case(seed, i, force_end=None):
                 faults.append({"op": "open", "path": fr.choice(cands), "exact": True, "nth": fr.randint(2, 6), "errno": "EIO", "until": n_total})
             else:
                 faults.append({"op": "write", "path": "/w/out", "nth": fr.randint(5, 200), "errno": "ENOSPC", "until": n_total})
-    doc = {"files": files0, "cwd": "/w/pkg", "edits": edits, "sched": sched, "faults": faults,
+    # command-line overrides of manifest keys, in force for the whole session (every regeneration applies them afresh)
+    config_args = []
+    ca = rng.fork("configargs")
+    stable = [t for t in targets if t in state.targets and t not in removed_targets and not any(("remove_target" in l or "restore_target" in l) for l in log)]
+    if stable and ca.chance(0.15):
+        t = ca.choice(sorted(stable))
+        fl = M.TARGET_FLAGS.get(t, [])
+        if fl:
+            config_args = ["--config", "%s.%s=%s" % (t, ca.choice(fl), ca.choice(["true", "false"]))]
+    doc = {"files": files0, "cwd": "/w/pkg", "edits": edits, "sched": sched, "faults": faults, "config_args": config_args,
            "mapseed": rng.next() % (1 << 31) + 1, "seed": seed,
            "case": {"i": i, "targets": targets, "imports": len(pkg.imports), "versions": len(pkg.versions), "edit_log": log,
                     "n_edit_ops": len(edits), "ends_invalid": end_invalid, "unfinished_file": unfinished, "model_file_in_subdirectory": subdir_file}}
@@ -402,7 +411,7 @@ def final_inputs(doc):
 
 def execute(sim, doc):
     """Returns (violation record or None, stats)."""
-    spec = {"mode": "watch", "files": doc["files"], "cwd": doc["cwd"], "args": ["generate", "--watch"],
+    spec = {"mode": "watch", "files": doc["files"], "cwd": doc["cwd"], "args": ["generate", "--watch"] + list(doc.get("config_args") or []),
             "edits": doc["edits"], "faults": copy.deepcopy(doc.get("faults", [])), "max_steps": 30000, "settle_ms": 60000}
     if not doc["edits"]:
         spec["faults"] = []                  # faults are transient: with no edit after them nothing can re-trigger a regeneration
@@ -445,7 +454,7 @@ def execute(sim, doc):
     # O1: one-shot on the final disk, fresh process, must change nothing
     tree = res["tree"]
     links = {p: e["t"] for p, e in tree.items() if e["k"] == "l"}
-    one = sim.run(tw.oneshot_spec(tw.tree_files(tree), doc["cwd"], links=links, dirs=tw.tree_dirs(tree)), mapseed=doc["mapseed"])
+    one = sim.run(tw.oneshot_spec(tw.tree_files(tree), doc["cwd"], args=tuple(["generate"] + list(doc.get("config_args") or [])), links=links, dirs=tw.tree_dirs(tree)), mapseed=doc["mapseed"])
     st["runs"] += 1
     if one.get("status") == "process_died":
         st["final_invalid"] = True
@@ -459,7 +468,7 @@ def execute(sim, doc):
         st["diff_paths"] = [q for _, q in d[:200]]
         return {"class": "not_converged", "first": "%s %s" % (kind, p.replace("/w/", "")), "n_diffs": len(d)}, st
     # O2: regenerations born after the last edit only write what a clean one-shot writes
-    clean = sim.run(tw.oneshot_spec(final_inputs(doc), doc["cwd"]), mapseed=doc["mapseed"])
+    clean = sim.run(tw.oneshot_spec(final_inputs(doc), doc["cwd"], args=tuple(["generate"] + list(doc.get("config_args") or []))), mapseed=doc["mapseed"])
     st["runs"] += 1
     if clean.get("status") == "returned" and clean["exit_code"] == 0:
         allowed = set(clean["tree"])
